@@ -147,6 +147,7 @@ def main(argv=None):
     sit = collections.Counter()
     obs = collections.Counter()
     escaped = collections.Counter()
+    escaped_case = {}
     other = collections.Counter()
     inconc = collections.Counter()
     samples = []
@@ -159,6 +160,9 @@ def main(argv=None):
         sit.update(r.get('sit', {}))
         obs.update(r.get('obs', {}))
         escaped.update(r.get('escaped', {}))
+        for sig, ci in r.get('escaped_first_case', {}).items():
+            if sig not in escaped_case or ci < escaped_case[sig]:
+                escaped_case[sig] = ci
         other.update(r.get('other_props', {}))
         inconc.update(r.get('inconclusive', {}))
         samples.extend(r.get('samples', []))
@@ -203,6 +207,7 @@ def main(argv=None):
         'situations': dict(sit),
         'observed': dict(obs),
         'escaped_exceptions': dict(escaped),
+        'escaped_exceptions_first_case': escaped_case,
         'alarms_of_other_properties_monitors': dict(other),
         'inconclusive_runs': dict(inconc),
         'cases_not_run_time_cap': not_run,
